@@ -905,7 +905,32 @@ func c15StreamOmitted(run *Run, r *rand.Rand) {
 		}
 	}
 	vars, _ = json.Marshal(cv)
-	in := map[string]any{"operation": op, "variables": string(vars), "stream": "omitted"}
+	c15OmittedEval(run, l, u, op, vars)
+}
+
+// replay of a recorded case of the omitted-stays-omitted stream
+func c15OmittedReplay(run *Run, input []byte) bool {
+	var in struct {
+		Stream    string       `json:"stream"`
+		Operation string       `json:"operation"`
+		Variables string       `json:"variables"`
+		Universe  *fedUniverse `json:"universe"`
+	}
+	if json.Unmarshal(input, &in) != nil || in.Stream != "omitted" || in.Universe == nil {
+		return false
+	}
+	l, err := c14SubLayout()
+	if err != nil {
+		return false
+	}
+	c15OmittedEval(run, l, in.Universe, in.Operation, []byte(in.Variables))
+	run.Count("replay")
+	return true
+}
+
+func c15OmittedEval(run *Run, l *fedLayout, u *fedUniverse, op string, vars []byte) {
+	subscription := strings.HasPrefix(op, "subscription")
+	in := map[string]any{"operation": op, "variables": string(vars), "stream": "omitted", "universe": u}
 	eng, err := fedNewEngine(l, fedEngineOpts{subClient: func(fe *fedEngine) graphql_datasource.GraphQLSubscriptionClient {
 		return &c14SubClient{fe: fe, events: 1}
 	}})
@@ -1087,6 +1112,14 @@ func runC15(run *Run, replay string) Spec {
 	}
 	if replay != "" {
 		if b, err := os.ReadFile(replay); err == nil {
+			var raw struct {
+				Violation struct {
+					Input json.RawMessage `json:"input"`
+				} `json:"violation"`
+			}
+			if json.Unmarshal(b, &raw) == nil && c15OmittedReplay(run, raw.Violation.Input) {
+				return spec
+			}
 			var f struct {
 				Violation struct {
 					Input struct {
